@@ -125,12 +125,76 @@ func C20(c *core.Ctx) {
 	sub := core.NewCtx("C02", c.Tier, c.Seed, p, c.VerifDir)
 	sub.Quiet = true
 	c02Matching(sub)
+	c02MapEquality(sub)
 	for _, o := range sub.Obligations() {
-		if o.Rule == "C02-R1" {
+		if o.Rule == "C02-R1" || o.Rule == "C02-R6" {
 			c.ObAt("C20-R7", o.Key, o.Pos, o.OK, o.Msg)
 		}
 	}
+	c20EachConverted(c)
 }
+
+// c20EachConverted — C20-R8: "debit minus credit, each converted": in
+// PaymentLine.calculate every amount handed to the currency conversion is the
+// line's own debit or credit as given — not a balance or any other computed
+// value, which would be rounded once where the property rounds each side.
+func c20EachConverted(c *core.Ctx) {
+	p := c.P
+	c.Rule("C20-R8", "a payment line converts its debit and its credit each on its own", 2)
+	fd := p.Func("bill", "PaymentLine", "calculate")
+	if fd == nil {
+		c.Ob("C20-R8", "UNRESOLVED:bill.PaymentLine.calculate", token.NoPos, false, "method not found")
+		return
+	}
+	info := fd.Pkg.TypesInfo
+	recv := recvVar(fd)
+	ld := core.NewLocalDefs(info, fd.Decl.Body)
+	isConvert := func(fn *types.Func) bool {
+		return fn != nil && fn.Pkg() != nil && fn.Pkg().Path() == core.ModPath+"/currency" && fn.Name() == "Convert"
+	}
+	n := 0
+	seen := map[string]bool{}
+	for _, call := range core.CallsTo(info, fd.Decl.Body, isConvert) {
+		if len(call.Args) == 0 {
+			continue
+		}
+		n++
+		arg := call.Args[len(call.Args)-1]
+		bad := ""
+		member := ""
+		for _, src := range valueSources(info, ld, arg, 0) {
+			e := ast.Unparen(src)
+			if st, ok := e.(*ast.StarExpr); ok {
+				e = ast.Unparen(st.X)
+			}
+			if f := core.FieldOf(info, e); f != nil && core.RootVar(info, e) == recv {
+				member = f.Name()
+				continue
+			}
+			bad = types.ExprString(src)
+		}
+		key := fmt.Sprintf("%s#convert%d", fd.Name(), n)
+		if bad == "" && member != "" {
+			key = fd.Name() + "#convert:" + member
+		}
+		if seen[key] {
+			key += fmt.Sprintf("~%d", n)
+		}
+		seen[key] = true
+		if bad != "" && core.VarOf(info, bad2expr(arg)) != nil {
+			if _, isParam := paramIndex(fd.Obj, core.VarOf(info, arg)); isParam {
+				c.Ob("C20-R8", key, call.Pos(), false, "UNDECIDED: the converted amount is a parameter of this function")
+				continue
+			}
+		}
+		c.Ob("C20-R8", key, call.Pos(), bad == "", fmt.Sprintf("the amount converted here is %s, not the line's debit or credit as given: the property converts each of the two and then subtracts; converting a computed balance rounds once where that rounds twice, so the line total (and the payment total over several lines) differs by a minor unit", bad))
+	}
+	if n == 0 {
+		c.Ob("C20-R8", fd.Name()+"#convert", fd.Decl.Pos(), false, "NOT FOUND: no currency conversion in this function")
+	}
+}
+
+func bad2expr(e ast.Expr) ast.Expr { return ast.Unparen(e) }
 
 func c20Negate(c *core.Ctx, leaves []amtLeaf) {
 	p := c.P
